@@ -762,6 +762,20 @@ def wl_C11(tier, rng):
                 t = rng.randrange(n)
                 ops += [f"geodesic 0 {s} {t}", f"allgeodesics 0 {s} {t}" if n <= 14 else f"geodesic 0 {t} {s}"]
         yield ({"cls": cls, "kind": kind, "n": n, "len": len(ops)}, ops)
+    # multigraphs and weighted graphs seen through asLabeledGraph()
+    for _ in range(scale(tier, 120, 2500)):
+        cls = rng.choice(MULTI + WEIGHTED)
+        n = rng.randint(1, scale(tier, 7, 12))
+        es = rand_edges(rng, n, density=rng.choice([0.1, 0.2, 0.4]))
+        if cls in ("umulti", "uw"):
+            es = und_canon(es)
+        ops = ["mode quiet", gen.new_line(0, cls, "-", n)] + [add_op(cls, 0, i, j, val_for(rng, cls, "-")) for (i, j) in es]
+        ops += algo_ops(n if n <= 4 else 0)
+        if n > 4:
+            for s_ in rng.sample(range(n), 3):
+                t = rng.randrange(n)
+                ops += [f"bfs 0 {s_}", f"allpred 0 {s_}", f"geodesic 0 {s_} {t}", f"allgeodesics 0 {s_} {t}", f"geodesicsfrom 0 {s_}"]
+        yield ({"cls": cls, "kind": "-", "n": n, "len": len(ops), "family": "asLabeledGraph"}, ops)
     # wide graphs (hubs; sizes around 32 and 64)
     for _ in range(scale(tier, 30, 500)):
         cls = rng.choice(SIMPLE)
